@@ -18,6 +18,16 @@ use std::collections::BTreeMap;
 use std::sync::Arc;
 
 const PROFILE_ID: &str = "kip://profiles/cognitive-memory";
+const EXTRA_ID: &str = "kip://vh/extra";
+/// a second package: one more local type name and one more local predicate name
+const EXTRA: &str = r#"{
+    "format": "KIP-Schema-Package",
+    "manifest": {"package_id": "kip://vh/extra", "version": "1.0.0"},
+    "definitions": {
+        "concept_types": { "Gadget": {"kind": "ConceptType", "description": "A thing."} },
+        "predicates": { "likes": {"kind": "PredicateType", "description": "Likes.", "subject": {"kinds": ["Concept"]}, "object": {"kinds": ["Concept"]}, "functional": false, "open_world": true, "complete": false} }
+    }
+}"#;
 pub const KINDS: [(ElementKind, char, &str); 5] = [
     (ElementKind::Assertion, 'A', "ASSERTION"),
     (ElementKind::Concept, 'C', "CONCEPT"),
@@ -39,6 +49,8 @@ pub enum Outcome {
     Refused { code: String, message: String },
     Dry { changes: Vec<(String, String, u64)> },
     Done { seq: u64, status: String, changes: Vec<(String, String, u64)>, tx_id: String, committed_at: String },
+    /// a schema activation (not a KML statement): the sequence it took and the version it minted
+    Activated { seq: u64, version: u64 },
     /// a successful response without a usable receipt (never expected)
     Odd(String),
 }
@@ -52,6 +64,7 @@ impl Outcome {
             Outcome::Refused { code, message } => format!("refused {}", err_class(code, message)),
             Outcome::Dry { changes } => format!("dry {}", ch(changes)),
             Outcome::Done { seq, status, changes, .. } => format!("done {seq} {status} {}", ch(changes)),
+            Outcome::Activated { seq, version } => format!("ok {seq} {version}"),
             Outcome::Odd(s) => format!("odd {s}"),
         }
     }
@@ -90,6 +103,7 @@ pub struct RawElem {
 #[derive(Clone, Debug, Default, PartialEq, Eq)]
 pub struct RawDump {
     pub seq: u64,
+    pub env: u64,
     pub elems: BTreeMap<String, RawElem>, // compact id
     pub journal: Vec<(u64, String, String, String, String)>, // seq, status, changes, tx_id, committed_at
     pub vlog: Vec<(String, u64, u64, String, String)>, // id, version, seq, op, row json
@@ -114,7 +128,7 @@ impl RawDump {
         let journal: Vec<String> = self.journal.iter().map(|(s, st, ch, _, _)| format!("{s}/{st}/{ch}")).collect();
         let vlog: Vec<String> = self.vlog.iter().map(|(i, v, s, o, _)| format!("{i}/{v}/{s}/{o}")).collect();
         let j = |v: Vec<String>| if v.is_empty() { "-".to_string() } else { v.join(";") };
-        format!("seq={} elems={} journal={} vlog={}", self.seq, j(elems), j(journal), j(vlog))
+        format!("seq={} env={} elems={} journal={} vlog={}", self.seq, self.env, j(elems), j(journal), j(vlog))
     }
 }
 
@@ -138,11 +152,25 @@ impl World {
         let db = AndaDB::connect(Arc::new(InMemory::new()), DBConfig { name: name.to_string(), description: "vh".into(), ..Default::default() }).await.expect("db");
         let nexus = CognitiveNexus::connect(Arc::new(db)).await.expect("nexus");
         nexus.install_package(&SchemaPackage::parse(COGNITIVE_MEMORY).expect("profile"), "vh").await.expect("install");
+        nexus.install_package(&SchemaPackage::parse(EXTRA).expect("extra package"), "vh").await.expect("install extra");
         let mut lock = SchemaLock::default();
         lock.packages.insert(PROFILE_ID.to_string(), "2.0.0".to_string());
         lock.states.insert(PROFILE_ID.to_string(), PackageState::Active);
         nexus.activate_schema(DEFAULT_SPACE, lock).await.expect("activate");
         World { nexus }
+    }
+
+    /// a (non-first) schema activation: 1 = the profile alone, 2 = the profile and the extra package.
+    /// Returns the environment version it minted.
+    pub async fn activate(&self, which: u8) -> Result<u64, String> {
+        let mut lock = SchemaLock::default();
+        lock.packages.insert(PROFILE_ID.to_string(), "2.0.0".to_string());
+        lock.states.insert(PROFILE_ID.to_string(), PackageState::Active);
+        if which == 2 {
+            lock.packages.insert(EXTRA_ID.to_string(), "1.0.0".to_string());
+            lock.states.insert(EXTRA_ID.to_string(), PackageState::Active);
+        }
+        self.nexus.activate_schema(DEFAULT_SPACE, lock).await.map(|e| e.version).map_err(|e| e.message.clone())
     }
 
     /// one command through the real parser and the executor
@@ -178,6 +206,14 @@ impl World {
         match receipt.space_seq {
             None => Outcome::Dry { changes },
             Some(seq) => Outcome::Done { seq, status, changes, tx_id: receipt.tx_id.clone().unwrap_or_default(), committed_at: receipt.committed_at.clone().unwrap_or_default() },
+        }
+    }
+
+    /// one member of a META answer, e.g. `version` of `DESCRIBE SCHEMA ENVIRONMENT AS OF SEQ 3`
+    pub async fn ask_member(&self, command: &str, member: &str) -> String {
+        match serde_json::from_str::<Value>(&self.ask(command).await) {
+            Ok(v) => v[member].to_string(),
+            Err(_) => self.ask(command).await,
         }
     }
 
@@ -242,7 +278,7 @@ impl World {
     /// the raw collections, read through the storage API
     pub async fn raw_dump(&self) -> RawDump {
         let store = &self.nexus.store;
-        let mut d = RawDump { seq: self.space_seq().await, ..Default::default() };
+        let mut d = RawDump { seq: self.space_seq().await, env: self.nexus.store.get_space(DEFAULT_SPACE).await.map(|s| s.schema_environment_version).unwrap_or(0), ..Default::default() };
         let space_filter = || anda_cognitive_nexus::store::eq_field("space", anda_db::schema::Fv::Text(DEFAULT_SPACE.to_string()));
         for (kind, c, _) in KINDS {
             let ids = store.elements(kind).query_all_ids(space_filter()).await.unwrap_or_default();
@@ -301,9 +337,11 @@ impl World {
             // (an `asserted_by` given as a plain id string is a literal actor name, not a reference)
             let literal_actor = format!("\"asserted_by\":{quoted}");
             let referenced = raw.elems.iter().any(|(j, o)| j != id && o.full.replace(&literal_actor, "").contains(&quoted));
-            if e.state != "purged" {
-                k.all.push((id.clone(), e.version, referenced));
+            if e.state == "purged" {
+                // an identity stub: nothing a later clause should pick as a target
+                continue;
             }
+            k.all.push((id.clone(), e.version, referenced));
             match id.chars().next() {
                 Some('C') => k.concepts.push((id.clone(), e.ty, e.version, e.state.clone(), e.key)),
                 Some('P') => k.props.push((id.clone(), e.version)),
